@@ -545,20 +545,24 @@ static int property_main(const Options &o) {
     return a.at("done").as_int() < b.at("done").as_int();
   });
 
-  // process candidates: gate, minimise, attribute
+  // process candidates. Every candidate goes through the determinism gate and
+  // through attribution to the known findings (replay with each finding's
+  // neutraliser: attributed iff the violation class disappears), so a new
+  // violation is never hidden behind a frequent known one. Only the first few
+  // unattributed candidates are minimised and reported.
   std::map<std::string, int> per_class;
   std::set<std::string> kf_hit;
-  long nondeterministic = 0, violations_found = (long)cands.size();
+  std::map<std::string, long> kf_count;
+  long nondeterministic = 0, violations_found = (long)cands.size(), attributed_total = 0;
   std::vector<Json> sample_violations;
-  int processed = 0;
+  int reported = 0, gated = 0;
   for (auto &cj : cands) {
     std::string cls = cj.at("violation").at("property").as_str() + "/" +
                       cj.at("violation").at("monitor").as_str() + "/" +
                       cj.at("violation").at("item").as_str();
-    if (per_class[cls] >= 3 || processed >= 12)
-      continue;
-    per_class[cls]++;
-    processed++;
+    if (gated >= 400)
+      break; // a bound on the post-processing time; the rest is counted as unprocessed
+    gated++;
     long idx = (long)cj.at("done").as_int();
     std::string raw = outdir + "/cand_" + std::to_string(idx) + ".raw.json";
     Json rawj = Json::obj();
@@ -577,6 +581,43 @@ static int property_main(const Options &o) {
              cls.c_str(), c1.c_str(), h1.c_str(), c2.c_str(), h2.c_str(), raw.c_str());
       continue;
     }
+    // attribution on the raw case
+    std::string attributed;
+    for (auto &k : kfs) {
+      if (k.status != "known" || k.overrides.empty())
+        continue;
+      if (std::find(k.properties.begin(), k.properties.end(), o.property) == k.properties.end())
+        continue;
+      std::string cn, hn, dn;
+      if (fresh_replay(raw, k.overrides, cn, hn, dn) && cn != cls) {
+        attributed = k.id;
+        break;
+      }
+    }
+    if (!attributed.empty()) {
+      attributed_total++;
+      kf_count[attributed]++;
+      if (kf_hit.insert(attributed).second) {
+        std::string keep = outdir + "/" + std::to_string(o.seed) + "_" + std::to_string(idx) +
+                           "." + attributed + ".replay.json";
+        write_file(keep, rawj.dump(1));
+        for (auto &k : kfs)
+          if (k.id == attributed)
+            kf_lines.push_back("KNOWN-FINDING: property=" + o.property + " " + k.id + " " +
+                               k.what + " (met again by seeded search, replay=" + keep + ")");
+      }
+      unlink(raw.c_str());
+      continue;
+    }
+    if (per_class[cls] >= 3 || reported >= 12) {
+      // still a violation: make sure the run fails even if it is not minimised
+      if (reported >= 12 || per_class[cls] >= 3) {
+        per_class[cls]++;
+        continue;
+      }
+    }
+    per_class[cls]++;
+    reported++;
     std::string fin = outdir + "/" + std::to_string(o.seed) + "_" + std::to_string(idx) +
                       ".replay.json";
     if (o.no_min) {
@@ -590,37 +631,44 @@ static int property_main(const Options &o) {
     std::string c3, h3, d3, c4, h4, d4;
     fresh_replay(fin, "", c3, h3, d3);
     fresh_replay(fin, "", c4, h4, d4);
-    if (c3 != cls || c4 != cls || h3 != h4) {
+    bool min_ok = (c3 == cls && c4 == cls && h3 == h4);
+    if (min_ok) {
+      // the minimised case must not have drifted into a known finding
+      for (auto &k : kfs) {
+        if (k.status != "known" || k.overrides.empty())
+          continue;
+        if (std::find(k.properties.begin(), k.properties.end(), o.property) ==
+            k.properties.end())
+          continue;
+        std::string cn, hn, dn;
+        if (fresh_replay(fin, k.overrides, cn, hn, dn) && cn != cls)
+          min_ok = false;
+      }
+    }
+    if (!min_ok) {
       // the minimised file must fail the same way; fall back to the raw case
       write_file(fin, rawj.dump(1));
       d3 = d1;
     }
-    // attribution to known findings through their neutralisers
-    std::string attributed;
-    for (auto &k : kfs) {
-      if (k.status != "known" || k.overrides.empty())
-        continue;
-      if (std::find(k.properties.begin(), k.properties.end(), o.property) == k.properties.end())
-        continue;
-      std::string cn, hn, dn;
-      if (fresh_replay(fin, k.overrides, cn, hn, dn) && cn != cls) {
-        attributed = k.id;
-        if (kf_hit.insert(k.id).second)
-          kf_lines.push_back("KNOWN-FINDING: property=" + o.property + " " + k.id + " " +
-                             k.what + " (met again by seeded search, replay=" + fin + ")");
-        break;
-      }
-    }
-    if (attributed.empty()) {
-      violation_lines.push_back("VIOLATION property=" + o.property + " replay=" + fin);
-      printf("  class=%s\n  %s\n", cls.c_str(), d3.c_str());
-      if (sample_violations.size() < 3)
-        sample_violations.push_back(cj.at("violation"));
-    }
+    violation_lines.push_back("VIOLATION property=" + o.property + " replay=" + fin);
+    printf("  class=%s\n  %s\n", cls.c_str(), d3.c_str());
+    if (sample_violations.size() < 3)
+      sample_violations.push_back(cj.at("violation"));
   }
 
-  std::sort(kf_lines.begin(), kf_lines.end());
-  kf_lines.erase(std::unique(kf_lines.begin(), kf_lines.end()), kf_lines.end());
+  {
+    // one line per finding: the longer ("met again by seeded search") variant wins
+    std::map<std::string, std::string> by_id;
+    for (auto &l : kf_lines) {
+      std::vector<std::string> w = split(l, ' ');
+      std::string id = w.size() > 2 ? w[2] : l;
+      if (!by_id.count(id) || by_id[id].size() < l.size())
+        by_id[id] = l;
+    }
+    kf_lines.clear();
+    for (auto &kv : by_id)
+      kf_lines.push_back(kv.second);
+  }
   for (auto &l : kf_lines)
     printf("%s\n", l.c_str());
   for (auto &l : crash_notes)
@@ -670,6 +718,13 @@ static int property_main(const Options &o) {
   cov.set("worker_crashes", crashed);
   cov.set("violation_candidates", violations_found);
   cov.set("nondeterministic_candidates", nondeterministic);
+  cov.set("candidates_attributed_to_known_findings", attributed_total);
+  {
+    Json kc = Json::obj();
+    for (auto &kv : kf_count)
+      kc.set(kv.first, kv.second);
+    cov.set("known_finding_hits", kc);
+  }
   Json kfj = Json::arr();
   for (auto &l : kf_lines)
     kfj.push(l);
